@@ -147,3 +147,127 @@ def translate(fn, lean_name, doc):
         sig = ' '.join('(_%s : Option Int)' % p for p in params)
         return ('/-- %s — NOT TRANSLATED (%s) -/\ndef %s (_len_s : Int) %s : Int := 0\ndef %sOk : Bool := false\n'
                 % (doc, str(e).replace('-/', ''), lean_name, sig, lean_name)), False
+
+
+# =================================================================================================
+# Prefix mode: the guard a method starts with.
+#
+# The leading statements of a method are translated as long as they stay in the subset (plus calls
+# of `self._slice_val_to_idx`, truth tests of object parameters, `return` and `raise`); the result is
+# what happens *before* the first statement outside the subset:  0 = that statement is reached,
+# 1 = the method has returned, 2 = it has raised.  An object parameter `p` (only ever tested with
+# `not p`, `p is None`, `p is not None`, bare `p`) becomes two Booleans `p_none`, `p_truthy`.
+
+class Prefix(Fn):
+    def __init__(self, fn, helper='sliceValToIdx'):
+        self.fn = fn
+        self.helper = helper
+        args = fn.args
+        if args.vararg or args.kwarg or args.kwonlyargs:
+            raise Unsupported('signature')
+        self.params = [a.arg for a in args.args if a.arg != 'self']
+        # classify parameters
+        self.optional = set()
+        self.objs = set()
+        arith = set()
+        for n in ast.walk(fn):
+            if isinstance(n, (ast.BinOp, ast.Compare)):
+                if isinstance(n, ast.Compare) and len(n.ops) == 1 and isinstance(n.ops[0], (ast.Is, ast.IsNot)):
+                    continue
+                for m in ast.walk(n):
+                    if isinstance(m, ast.Name) and m.id in self.params:
+                        arith.add(m.id)
+            if isinstance(n, ast.Call) and isinstance(n.func, ast.Attribute) and n.func.attr == '_slice_val_to_idx':
+                for a in n.args[:1]:
+                    if isinstance(a, ast.Name) and a.id in self.params:
+                        self.optional.add(a.id)
+                for a in n.args[1:]:
+                    for m in ast.walk(a):
+                        if isinstance(m, ast.Name) and m.id in self.params:
+                            arith.add(m.id)
+        for p in self.params:
+            if p not in arith and p not in self.optional:
+                self.objs.add(p)
+        self.optional -= self.objs
+
+    def ex(self, e, env):
+        if isinstance(e, ast.Call) and isinstance(e.func, ast.Attribute) and e.func.attr == '_slice_val_to_idx' \
+                and isinstance(e.func.value, ast.Name) and e.func.value.id == 'self' and len(e.args) == 2 and not e.keywords:
+            a0 = e.args[0]
+            if isinstance(a0, ast.Name) and env.get(a0.id) == 'opt':
+                first = mangle(a0.id)
+            elif isinstance(a0, ast.Constant) and a0.value is None:
+                first = 'none'
+            else:
+                first = '(some %s)' % self.ex(a0, env)
+            return '(%s len_s %s %s)' % (self.helper, first, self.ex(e.args[1], env))
+        return Fn.ex(self, e, env)
+
+    def cond(self, e, env):
+        if isinstance(e, ast.Name) and env.get(e.id) == 'obj':
+            return '(%s_truthy = true)' % e.id
+        if isinstance(e, ast.UnaryOp) and isinstance(e.op, ast.Not) and isinstance(e.operand, ast.Name) and env.get(e.operand.id) == 'obj':
+            return '(%s_truthy = false)' % e.operand.id
+        nt = self.none_test(e)
+        if nt is not None and env.get(nt[0]) == 'obj':
+            return '(%s_none = %s)' % (nt[0], 'true' if nt[1] else 'false')
+        return Fn.cond(self, e, env)
+
+    def st(self, stmts, env, ind):
+        pad = '  ' * ind
+        if not stmts:
+            return pad + '(0 : Int)'
+        s, rest = stmts[0], stmts[1:]
+        try:
+            if isinstance(s, ast.Expr) and isinstance(s.value, ast.Constant) and isinstance(s.value.value, str):
+                return self.st(rest, env, ind)
+            if isinstance(s, ast.Return):
+                return pad + '(1 : Int)'
+            if isinstance(s, ast.Raise):
+                return pad + '(2 : Int)'
+            if isinstance(s, ast.Assign) and len(s.targets) == 1 and isinstance(s.targets[0], ast.Name):
+                v = s.targets[0].id
+                val = self.ex(s.value, env)
+                env2 = dict(env)
+                env2[v] = 'int'
+                return pad + 'let %s : Int := %s\n' % (mangle(v), val) + self.st(rest, env2, ind)
+            if isinstance(s, ast.If):
+                nt = self.none_test(s.test)
+                if nt is not None and env.get(nt[0]) == 'opt':
+                    raise Unsupported('None test on an optional int in a guard')
+                c = self.cond(s.test, env)
+                a = list(s.body) + rest
+                b = list(s.orelse) + rest
+                return (pad + 'if %s then\n' % c + self.st(a, env, ind + 1) + '\n' + pad + 'else\n' + self.st(b, env, ind + 1))
+        except Unsupported:
+            pass
+        return pad + '(0 : Int)'
+
+    def lean(self, name, doc):
+        env = {}
+        sig = []
+        for p in self.params:
+            if p in self.objs:
+                env[p] = 'obj'
+                sig.append('(%s_none %s_truthy : Bool)' % (p, p))
+            elif p in self.optional:
+                env[p] = 'opt'
+                sig.append('(%s : Option Int)' % mangle(p))
+            else:
+                env[p] = 'int'
+                sig.append('(%s : Int)' % mangle(p))
+        body = self.st(list(self.fn.body), env, 1)
+        import re as _re
+        def mark(m):
+            # a parameter the translated part never mentions gets a leading underscore
+            nm = m.group(0)
+            return nm if _re.search(r'(?<![A-Za-z0-9_])%s(?![A-Za-z0-9_])' % _re.escape(nm), body) else '_' + nm
+        sig = [_re.sub(r'[A-Za-z][A-Za-z0-9_]*(?= |\))(?<!Bool)(?<!Int)(?<!Option)', mark, x) for x in sig]
+        return '/-- %s -/\ndef %s (len_s : Int) %s : Int :=\n%s\n' % (doc, name, ' '.join(sig), body)
+
+
+def translate_prefix(fn, lean_name, doc):
+    try:
+        return Prefix(fn).lean(lean_name, doc)
+    except Unsupported as e:
+        return '/-- %s — NOT TRANSLATED (%s) -/\ndef %s : Int := 0\n' % (doc, str(e).replace('-/', ''), lean_name)
